@@ -384,6 +384,9 @@ impl PropertySet {
     pub fn set(&mut self, property_name: u32, property_value: PropertyValue) {
         if property_name == PROPERTY_CODEPAGE {
             if let PropertyValue::I2(codepage_id) = property_value {
+                // The ID is stored as a 16-bit value, so e.g. 65001 (UTF-8)
+                // shows up here as a negative number.
+                let codepage_id = codepage_id as u16;
                 if let Some(codepage) = CodePage::from_id(codepage_id as i32) {
                     self.codepage = codepage;
                 }
